@@ -29,7 +29,17 @@ let domain_ok d =
       && (match last.[String.length last - 1] with 'a'..'z' | 'A'..'Z' -> true | _ -> false))
 
 let local_literals = ref []
-let other_literals = ref ["[192.0.2.77]"; "[ipv6:2001:db8::77]"; "[192.0.2.2]"; "[ipv6:2001:db8::2]"]   (* every literal the generator uses; a valid literal that is not the local address has no users *)
+(* a syntactically valid literal that is not the local address has no users.  IPv4: four decimal numbers 0..255 without
+   leading zeros; IPv6: the forms the generator uses *)
+let valid_v4 (t : string) =
+  match String.split_on_char '.' t with
+  | [a; b; c; d] -> List.for_all (fun x -> let n = String.length x in n >= 1 && n <= 3 && String.for_all (fun ch -> ch >= '0' && ch <= '9') x
+                                               && (n = 1 || x.[0] <> '0') && int_of_string x <= 255) [a; b; c; d]
+  | _ -> false
+let is_other_literal (dom : string) =
+  let n = String.length dom in
+  n > 2 && dom.[0] = '[' && dom.[n - 1] = ']' &&
+  (valid_v4 (String.sub dom 1 (n - 2)) || List.mem dom ["[ipv6:2001:db8::77]"; "[ipv6:2001:db8::2]"])
 
 let o_helo (arg : n list) : bool =
   let s = str_of_bytes arg in
@@ -54,7 +64,7 @@ let o_addr (is_rcpt : bool) (arg : n list) : ap_result =
               let local = String.sub inner 0 k and dom = String.lowercase_ascii (String.sub inner (k + 1) (String.length inner - k - 1)) in
               if local <> "" && String.for_all is_atext local && is_rcpt && List.mem dom !local_literals then
                 AP_ok (bytes_of_str (local ^ "@" ^ dom), more, RLocal)      (* literal of the local IP: accepted for any local part *)
-              else if local <> "" && String.for_all is_atext local && is_rcpt && String.length dom > 2 && dom.[0] = '[' && List.mem dom !other_literals then
+              else if local <> "" && String.for_all is_atext local && is_rcpt && is_other_literal dom then
                 AP_nouser
               else
               if local = "" || not (String.for_all is_atext local) || not (domain_ok dom) then AP_syntax
@@ -99,7 +109,7 @@ let make_oracles cfg : oracles =
   let remoteip = if ip = "v4" then "::ffff:192.0.2.1" else "2001:db8::1" in
   (* an IPv6 literal of the local address is never recognised: addrsyntax lower-cases the address and addrparse
      then compares the tag with "IPv6:" case-sensitively *)
-  local_literals := (if ip = "v4" then ["[192.0.2.2]"] else []);
+  local_literals := (if ip = "v4" then ["[192.0.2." ^ cfg "lip" "2" ^ "]"] else []);
   { o_helo = o_helo; o_addr = o_addr; o_ext = o_ext;
     o_relay = (match relay with "listed" -> Zpos XH | "none" | "unlisted" -> Z0 | _ -> Zneg XH);
     o_mx = (fun a -> let s = str_of_bytes a in
@@ -186,6 +196,7 @@ let spec_session cfgs chunks obs =
     let emit l = evs := !evs @ l in
     let k = ref 0 in
     let limits_bad = ref false in
+    let content_bad = ref false in
     let rec go = function
       | [] -> ()
       | c :: rest ->
@@ -224,7 +235,8 @@ let spec_session cfgs chunks obs =
                    if not (data_verdict_ok (maxbytes o) plines (n_of_int r2)) then limits_bad := true;
                    if r2 = 250 then
                      (match !hs with
-                      | (e, m) :: t -> hs := t; emit [Handoff (e, m); Note NBoundary; Reply (n_of_int r2)]
+                      | (e, m) :: t -> hs := t; if not (handoff_msg_ok plines m) then content_bad := true;
+                          emit [Handoff (e, m); Note NBoundary; Reply (n_of_int r2)]
                       | [] -> emit [Note NBoundary; Handoff ([], []); Reply (n_of_int r2)])   (* 250 without a hand-off: rejected by queue_run *)
                    else emit [Note NBoundary; Reply (n_of_int r2)];
                    go rest'
@@ -238,6 +250,7 @@ let spec_session cfgs chunks obs =
     let bad = ref [] in
     if !hs <> [] then bad := "handoff-without-250" :: !bad;
     if !limits_bad then bad := "limits" :: !bad;
+    if !content_bad then bad := "message" :: !bad;
     (match trace_run o !evs a_init with None -> bad := "trace" :: !bad | Some _ -> ());
     (match queue_run o !evs QIdle with None -> bad := "queue" :: !bad | Some _ -> ());
     if !bad = [] then "ok" else "bad:" ^ String.concat "," (List.rev !bad)
